@@ -42,7 +42,57 @@ void __real_exit(int) __attribute__((noreturn));
 time_t __real_time(time_t *);
 }
 
+// ---- ThreadSanitizer scoping -------------------------------------------------------------------
+// In the TSan build the harness is not instrumented, but its accesses would still reach TSan through
+// libc interceptors (memcpy, memcmp, operator new ...).  Caller threads therefore run with accesses
+// ignored while they execute harness code, and switch the ignore off exactly while they are inside
+// real library code (run_in_lib); wrappers and stream callbacks switch it on again for their body.
+#ifdef SIM_TSAN
+extern "C" void __tsan_ignore_thread_begin();
+extern "C" void __tsan_ignore_thread_end();
+static __thread int t_tsan_task = 0, t_ign = 0;
+static inline void ign_on() {
+  if (t_tsan_task && !t_ign) {
+    __tsan_ignore_thread_begin();
+    t_ign = 1;
+  }
+}
+static inline void ign_off() {
+  if (t_tsan_task && t_ign) {
+    __tsan_ignore_thread_end();
+    t_ign = 0;
+  }
+}
+struct HarnessScope {
+  int was;
+  HarnessScope() : was(t_ign) { ign_on(); }
+  ~HarnessScope() {
+    if (!was) ign_off();
+  }
+};
+#else
+static inline void ign_on() {}
+static inline void ign_off() {}
+struct HarnessScope {
+  HarnessScope() {}
+  ~HarnessScope() {}
+};
+#endif
+
 namespace sim {
+
+void sim_thread_begin() {
+#ifdef SIM_TSAN
+  t_tsan_task = 1;
+#endif
+  ign_on();
+}
+void sim_thread_end() {
+  ign_off();
+#ifdef SIM_TSAN
+  t_tsan_task = 0;
+#endif
+}
 
 static const size_t PAGE = 4096;
 static const size_t ARENA_SIZE = 12ULL << 30;
@@ -53,7 +103,7 @@ static const size_t MAX_ANON = 64 * 6000 + 8192;  // growth cap of one anonymous
 
 static const char *K_NAMES[K_N] = {"malloc", "calloc", "free",   "mmap",   "mmap_file", "mremap", "munmap",
                                    "open",   "fstat",  "close",  "read",   "fopen",     "fwrite", "fclose",
-                                   "write",  "stdout", "stdin",  "exit",   "time"};
+                                   "write",  "stdout", "stdin",  "exit",   "time",      "libc"};
 const char *call_name(int k) { return (k >= 0 && k < K_N) ? K_NAMES[k] : "?"; }
 int call_from_name(const std::string &s) {
   for (int i = 0; i < K_N; i++)
@@ -321,6 +371,7 @@ bool path_writable(const std::string &p) {
 
 // ---- stdio cookies ----------------------------------------------------------------------
 static ssize_t ck_out_write(void *cookie, const char *buf, size_t n) {
+  HarnessScope hs_;
   OutStream *os = (OutStream *)cookie;
   if (os->failed) {
     errno = os->fail_errno;
@@ -343,15 +394,18 @@ static ssize_t ck_out_write(void *cookie, const char *buf, size_t n) {
   return (ssize_t)take;
 }
 static int ck_out_close(void *cookie) {
+  HarnessScope hs_;
   OutStream *os = (OutStream *)cookie;
   if (os != &G.out_state) delete os;
   return 0;
 }
 static ssize_t ck_err_write(void *, const char *, size_t n) {
+  HarnessScope hs_;
   G.st.stderr_bytes += (long)n;
   return (ssize_t)n;
 }
 static ssize_t ck_in_read(void *, char *buf, size_t n) {
+  HarnessScope hs_;
   if (in_lib()) answer(K_IN);
   size_t left = G.in_data.size() - G.in_pos;
   if (left == 0) return 0;
@@ -406,6 +460,7 @@ static void on_signal(int sig, siginfo_t *si, void *uc_) {
   OpCtx *c = t_ctx;
   uintptr_t addr = (uintptr_t)si->si_addr;
   if (!c || !c->in_lib) fatal_outside_op(sig, addr);
+  ign_on();
   ucontext_t *uc = (ucontext_t *)uc_;
   c->fault_sig = sig;
   c->fault_addr = addr;
@@ -515,10 +570,13 @@ int run_in_lib(OpCtx *c, void (*fn)(void *), void *arg, long step_budget) {
   if (j == 0) {
     sim_steps_begin(step_budget);
     c->in_lib = 1;
+    ign_off();
     fn(arg);
+    ign_on();
     c->in_lib = 0;
     sim_steps_end();
   } else {
+    ign_on();
     c->in_lib = 0;
   }
   t_ctx = prev;
@@ -533,6 +591,7 @@ using namespace sim;
 extern "C" void sim_hang_trap(void) {
   OpCtx *c = cur_ctx();
   if (!c || !c->in_lib) return;
+  ign_on();
   c->in_lib = 0;
   siglongjmp(c->jb, J_HANG);
 }
@@ -540,6 +599,7 @@ extern "C" void sim_hang_trap(void) {
 // ---- memory ---------------------------------------------------------------------------------
 extern "C" void *__wrap_malloc(size_t n) {
   if (!in_lib()) return __real_malloc(n);
+  HarnessScope hs_;
   const EnvAns *a = answer(K_MALLOC);
   if (a && a->ans == ANS_FAIL) {
     note_fired(K_MALLOC);
@@ -552,6 +612,7 @@ extern "C" void *__wrap_malloc(size_t n) {
 }
 extern "C" void *__wrap_calloc(size_t a_, size_t b_) {
   if (!in_lib()) return __real_calloc(a_, b_);
+  HarnessScope hs_;
   const EnvAns *a = answer(K_CALLOC);
   if (a && a->ans == ANS_FAIL) {
     note_fired(K_CALLOC);
@@ -567,6 +628,7 @@ extern "C" void __wrap_free(void *p) {
     __real_free(p);
     return;
   }
+  HarnessScope hs_;
   answer(K_FREE);
   if (p) G.heap.erase(p);
   __real_free(p);
@@ -574,6 +636,7 @@ extern "C" void __wrap_free(void *p) {
 
 extern "C" void *__wrap_mmap(void *addr, size_t len, int prot, int flags, int fd, off_t off) {
   if (!in_lib()) return __real_mmap(addr, len, prot, flags, fd, off);
+  HarnessScope hs_;
   bool anon = (flags & MAP_ANONYMOUS) != 0;
   const EnvAns *a = answer(anon ? K_MMAP_ANON : K_MMAP_FILE);
   if (a && a->ans == ANS_FAIL) {
@@ -648,6 +711,7 @@ extern "C" void *__wrap_mremap(void *old, size_t old_len, size_t new_len, int fl
     va_end(ap);
     return __real_mremap(old, old_len, new_len, flags, na);
   }
+  HarnessScope hs_;
   OpCtx *c = cur_ctx();
   const EnvAns *a = answer(K_MREMAP);
   c->mremap_calls++;
@@ -726,6 +790,7 @@ extern "C" void *__wrap_mremap(void *old, size_t old_len, size_t new_len, int fl
 
 extern "C" int __wrap_munmap(void *p, size_t len) {
   if (!in_lib()) return __real_munmap(p, len);
+  HarnessScope hs_;
   const EnvAns *a = answer(K_MUNMAP);
   if (a && a->ans == ANS_FAIL) {
     note_fired(K_MUNMAP);
@@ -768,6 +833,7 @@ extern "C" int __wrap_open(const char *path, int flags, ...) {
     va_end(ap);
   }
   if (!in_lib()) return __real_open(path, flags, mode);
+  HarnessScope hs_;
   const EnvAns *a = answer(K_OPEN);
   if (a && a->ans == ANS_FAIL) {
     note_fired(K_OPEN);
@@ -798,6 +864,7 @@ extern "C" int __wrap_open(const char *path, int flags, ...) {
 }
 extern "C" int __wrap_fstat(int fd, struct stat *st) {
   if (!in_lib()) return __real_fstat(fd, st);
+  HarnessScope hs_;
   const EnvAns *a = answer(K_FSTAT);
   if (a && a->ans == ANS_FAIL) {
     note_fired(K_FSTAT);
@@ -819,6 +886,7 @@ extern "C" int __wrap_fstat(int fd, struct stat *st) {
 }
 extern "C" int __wrap_close(int fd) {
   if (!in_lib()) return __real_close(fd);
+  HarnessScope hs_;
   answer(K_CLOSE);
   int k = fd - FD_BASE;
   if (k < 0 || k >= (int)G.fds.size() || !G.fds[k].open) {
@@ -831,6 +899,7 @@ extern "C" int __wrap_close(int fd) {
 }
 extern "C" ssize_t __wrap_read(int fd, void *buf, size_t n) {
   if (!in_lib()) return __real_read(fd, buf, n);
+  HarnessScope hs_;
   const EnvAns *a = answer(K_READ);
   if (a && a->ans == ANS_FAIL) {
     note_fired(K_READ);
@@ -860,6 +929,7 @@ extern "C" ssize_t __wrap_read(int fd, void *buf, size_t n) {
 
 extern "C" FILE *__wrap_fopen(const char *path, const char *mode) {
   if (!in_lib()) return __real_fopen(path, mode);
+  HarnessScope hs_;
   const EnvAns *a = answer(K_FOPEN);
   if (a && a->ans == ANS_FAIL) {
     note_fired(K_FOPEN);
@@ -916,6 +986,7 @@ extern "C" FILE *__wrap_fopen(const char *path, const char *mode) {
 }
 extern "C" size_t __wrap_fwrite(const void *ptr, size_t size, size_t n, FILE *f) {
   if (!in_lib() || G.ostreams.find(f) == G.ostreams.end()) return __real_fwrite(ptr, size, n, f);  // diagnostics on stderr etc.
+  HarnessScope hs_;
   const EnvAns *a = answer(K_FWRITE);
   if (a && (a->ans == ANS_FAIL || a->ans == ANS_SHORT) && size * n > 0) {  // nothing to refuse in an empty write
     note_fired(K_FWRITE);
@@ -933,6 +1004,7 @@ extern "C" size_t __wrap_fwrite(const void *ptr, size_t size, size_t n, FILE *f)
 }
 extern "C" int __wrap_fclose(FILE *f) {
   if (!in_lib()) return __real_fclose(f);
+  HarnessScope hs_;
   const EnvAns *a = answer(K_FCLOSE);
   bool known = G.ostreams.erase(f) > 0;
   if (!known && f != nullptr && f != stdout && f != stderr && f != stdin) sim_reject("fclose: stream was not opened by fopen");
@@ -949,6 +1021,7 @@ extern "C" int __wrap_fclose(FILE *f) {
 extern "C" void __wrap_exit(int status) {
   OpCtx *c = cur_ctx();
   if (!c || !c->in_lib) __real_exit(status);
+  ign_on();
   answer(K_EXIT);
   c->exit_status = status;
   c->in_lib = 0;
@@ -957,8 +1030,50 @@ extern "C" void __wrap_exit(int status) {
 }
 extern "C" time_t __wrap_time(time_t *t) {
   if (!in_lib()) return __real_time(t);
+  HarnessScope hs_;
   answer(K_TIME);
   time_t v = (time_t)G.w.sim_epoch;
   if (t) *t = v;
   return v;
 }
+
+// ---- libc functions that are preemption points only -------------------------------------------------
+// Edge callbacks give no yield point between two calls in one basic block, which is exactly where a
+// libc function with hidden static state (strtok, rand, strerror, localtime, getenv ...) is dangerous.
+// Every string/stdlib function the library uses today, and the classic stateful ones a change might
+// introduce, are therefore wrapped: yield, then forward.  (ASan/TSan interceptors still see the call.)
+#include <ctype.h>
+#include <strings.h>
+#define YIELD_WRAP(ret, name, params, args)                 \
+  extern "C" ret __real_##name params;                      \
+  extern "C" ret __wrap_##name params {                     \
+    if (in_lib()) {                                         \
+      G.st.calls[K_LIBC]++;                                 \
+      sim_yield_call(K_LIBC);                               \
+    }                                                       \
+    return __real_##name args;                              \
+  }
+YIELD_WRAP(char *, strtok, (char *a, const char *b), (a, b))
+YIELD_WRAP(char *, strtok_r, (char *a, const char *b, char **c), (a, b, c))
+YIELD_WRAP(char *, strncpy, (char *a, const char *b, size_t n), (a, b, n))
+YIELD_WRAP(char *, strcpy, (char *a, const char *b), (a, b))
+YIELD_WRAP(char *, strcat, (char *a, const char *b), (a, b))
+YIELD_WRAP(char *, strstr, (const char *a, const char *b), (a, b))
+YIELD_WRAP(char *, strchr, (const char *a, int b), (a, b))
+YIELD_WRAP(char *, strrchr, (const char *a, int b), (a, b))
+YIELD_WRAP(int, strcmp, (const char *a, const char *b), (a, b))
+YIELD_WRAP(int, strncmp, (const char *a, const char *b, size_t n), (a, b, n))
+YIELD_WRAP(int, strcasecmp, (const char *a, const char *b), (a, b))
+YIELD_WRAP(int, strncasecmp, (const char *a, const char *b, size_t n), (a, b, n))
+YIELD_WRAP(size_t, strlen, (const char *a), (a))
+YIELD_WRAP(unsigned long, strtoul, (const char *a, char **b, int c), (a, b, c))
+YIELD_WRAP(long, strtol, (const char *a, char **b, int c), (a, b, c))
+YIELD_WRAP(unsigned long long, strtoull, (const char *a, char **b, int c), (a, b, c))
+YIELD_WRAP(int, atoi, (const char *a), (a))
+YIELD_WRAP(int, rand, (void), ())
+YIELD_WRAP(char *, strerror, (int e), (e))
+YIELD_WRAP(char *, getenv, (const char *a), (a))
+YIELD_WRAP(struct tm *, localtime, (const time_t *t), (t))
+YIELD_WRAP(struct tm *, gmtime, (const time_t *t), (t))
+YIELD_WRAP(char *, setlocale, (int c, const char *l), (c, l))
+YIELD_WRAP(void *, memchr, (const void *a, int b, size_t n), (a, b, n))
